@@ -44,3 +44,20 @@ Lemma ConvertModelX_conv xc : ConvertModelX xc = conv (ParseTreeX xc).  Proof. r
 Lemma ConvertModelFn_conv : ConvertModelFn = conv ParseTreeFn.          Proof. reflexivity. Qed.
 Lemma ConvertModelTD_conv tc : ConvertModelTD tc = conv (ParseTreeTD tc). Proof. reflexivity. Qed.
 Lemma ConvertModelH_conv hc : ConvertModelH hc = conv (ParseTreeH hc).  Proof. reflexivity. Qed.
+
+(* ---------- the composition principle behind C03 / C04 ----------
+   the safe-mode theorems of the renderer model hold for all well-formed trees; any parser whose
+   trees are well formed - the property C05 - inherits them *)
+Require Import GM.proofs.HtmlConcrete.
+Theorem conv_safe_inert : forall parse, (forall src t, parse src = Ok t -> wf_tree src t = true) ->
+  forall c src o, unsafe c = false -> conv parse c src = Ok o -> Inert o.
+Proof.
+  intros parse Hwf c src o Hu H. apply conv_ok in H as (t & Ht & Hr).
+  exact (RenderHTML_safe_inert c src t o Hu (Hwf src t Ht) Hr).
+Qed.
+Theorem conv_safe_inert_xhtml : forall parse, (forall src t, parse src = Ok t -> wf_tree src t = true) ->
+  forall c src o, unsafe c = false -> xhtml c = true -> conv parse c src = Ok o -> InertX o.
+Proof.
+  intros parse Hwf c src o Hu Hx H. apply conv_ok in H as (t & Ht & Hr).
+  exact (RenderHTML_safe_inert_xhtml c src t o Hu Hx (Hwf src t Ht) Hr).
+Qed.
